@@ -217,6 +217,9 @@ StoreAll(S, vs) ==
         acked |-> S.acked,
         pending |-> [i \in DOMAIN S.pending \cup ids |-> IF i \in ids THEN SetAt(S.pending, i) \cup {tagOf(i)} ELSE S.pending[i]],
         written |-> [i \in DOMAIN S.written \cup ids |-> IF i \in ids THEN SetAt(S.written, i) \cup {tagOf(i)} ELSE S.written[i]]]
+\* The backfill RPC itself stores nothing: what it fetched reaches the store only through the processor's inbound
+\* channel (where quorum and signatures are checked, C01).  injected: what the call put on that channel.
+OnlyThroughProcessor(fills, injected) == fills \subseteq injected
 GapBackfill(st, fills, served, failed) ==
     /\ up
     /\ BackfillOK(st, fills, served)
